@@ -133,8 +133,18 @@ def local_bindings(fn):
     for x in ast.walk(fn):
         if isinstance(x, ast.Assign) and len(x.targets) == 1 and isinstance(x.targets[0], ast.Name) and x.targets[0].id not in out:
             out[x.targets[0].id] = masked(x.value)
+        elif isinstance(x, ast.Assign) and len(x.targets) == 1 and isinstance(x.targets[0], ast.Tuple):
+            for k, e in enumerate(x.targets[0].elts):
+                if isinstance(e, ast.Name) and e.id not in out:
+                    out[e.id] = "tuple%d:" % k + masked(x.value)
         elif isinstance(x, ast.For) and isinstance(x.target, ast.Name) and x.target.id not in out:
             out[x.target.id] = "for:" + masked(x.iter)
+        elif isinstance(x, ast.For) and isinstance(x.target, ast.Tuple):
+            for k, e in enumerate(x.target.elts):
+                if isinstance(e, ast.Name) and e.id not in out:
+                    out[e.id] = "for%d:" % k + masked(x.iter)
+        elif isinstance(x, ast.comprehension) and isinstance(x.target, ast.Name) and x.target.id not in out:
+            out[x.target.id] = "comp:" + masked(x.iter)
     return out
 
 
@@ -918,6 +928,8 @@ def inline_new_aliases(trees, inv):
             new = genuinely_new_locals(fn, mod, q, inv)
             if not new:
                 continue
+            orig_fn = fn
+            fn = copy.deepcopy(fn)       # the tuple split below is only kept if an alias is written out in the end
             # a, b = X, Y  ->  a = X; b = Y   (targets new, distinct, and not read by the right-hand sides)
             for blk_owner in ast.walk(fn):
                 for fld in ("body", "orelse", "finalbody"):
@@ -963,7 +975,7 @@ def inline_new_aliases(trees, inv):
             fn2 = inline_pure_aliases(fn, only=only)
             gone = _bound_names(fn) - _bound_names(fn2)
             if gone:
-                owner.body[:] = [fn2 if s is fn else s for s in owner.body]
+                owner.body[:] = [fn2 if s is orig_fn else s for s in owner.body]
                 notes.append("new local aliases written out in %s: %s" % (q, ", ".join(sorted(gone))))
     return notes
 
